@@ -373,6 +373,10 @@ func (tbls *TBLS) commitPhase(ctx context.Context, pk []byte) {
 }
 
 func (tbls *TBLS) combineShares() []byte {
+	// Messages of other parties may be handled while we combine our shares
+	tbls.lock.Lock()
+	defer tbls.lock.Unlock()
+
 	for _, party := range tbls.parties {
 		if party == tbls.Party {
 			continue
